@@ -605,7 +605,7 @@ func main() {
 	run := lib.NewRun(prop, "fault_enumeration")
 	run.SetRule("seeded executions of 3-5 real ConsensusStates (optionally one Byzantine validator) under adversarial schedules with premature timeouts, partitions, WAL rotation inside heights and real crash/restart of nodes; node X is additionally 'crashed' after its processed inputs (quick: sampled 25-100%; thorough: every input): disk artefacts copied, fresh node started through the real replay path, RoundState digest compared; for selected records the WAL head is cut at every byte offset (sampled above 48/400 bytes) of its last record. Non-trivial = distinct live RoundState digest that a replay reproduced.")
 	run.Assume("crash = process death after a completely processed input (torn writes are covered by the byte cuts of the WAL head only)", "the digest excludes the internal queue: replay legitimately re-queues identical re-signed own votes; contradictions are caught by the emission ledger instead", "peer majority claims (VoteSetMaj23) are reactor state, not WAL-logged inputs: not generated here", "cs_wal_light=false (default)")
-	total := int64(lib.Pick(48, 480))
+	total := int64(lib.Pick(48, 96))
 	per := int64(lib.Pick(48, 32)) // cases per round of 16 worker processes (thorough: two big cases each)
 	for first := int64(0); first < total; first += per {
 		n := per
